@@ -105,6 +105,23 @@ def mergeStep (s : Sink) (err otherErr : Option Err) (data : Str) : Sink × Opti
     | some e => (s, some e, none)               -- `s.err = other.err`, then Append sees the error
     | none => appendStep s none data
 
+/-- result of `executeBody` over a writer -/
+inductive BodyRes
+  | ok
+  | hook                       -- a hook returned an error: that is what is reported
+  | write (code : Nat)         -- no hook failed but a write through the tracker did
+deriving DecidableEq, Repr
+
+/-- `executeBody(w, g)` for a generator whose hooks write `chunks` (in order, ignoring the results of
+their writes, as `fmt.Fprintf`-style generators do) and whose last reached hook fails iff `hookFails`:
+a fresh `ErrorTracker` is put in front of `w`; after its first failed write the writer is not called
+again; a hook error is returned as it is, otherwise the tracker's error is the result -/
+def executeBodyW (s : Sink) (chunks : List Str) (hookFails : Bool) : Sink × BodyRes :=
+  let r := writeChunks s chunks
+  (r.1, if hookFails then .hook else match r.2 with
+    | some c => .write c
+    | none => .ok)
+
 /-! ## `Args` -/
 
 abbrev ArgMap := List (Str × Str)
